@@ -321,11 +321,13 @@ Apply(c, dt) ==
 
 Step(o, dt) == Apply(Call(s, g, o, dt, now), dt)
 
-Next == \E dt \in DTs : \E o \in Ops(s, now + dt) : Step(o, dt)
+\* the depth bound is part of the enabling condition (a CONSTRAINT would let TLC generate, but
+\* neither judge nor emit, one more level)
+Next == Len(hist) < Depth + Len(Pre) /\ \E dt \in DTs : \E o \in Ops(s, now + dt) : Step(o, dt)
 
 Spec == Init /\ [][Next]_vars
 
-Bound == Len(hist) <= Depth + Len(Pre)
+Bound == TRUE
 
 EmitReplay == Emit => PrintT(<<"REPLAY", ToJson(hist')>>)
 
